@@ -343,6 +343,10 @@ func ParseURI(uri SIPStr, puri *PsipURI) (ErrorURI, int) {
 	sch = ((uint32(uri[3]) << 24) | (uint32(uri[2]) << 16) |
 		(uint32(uri[1]) << 8) | (uint32(uri[0]))) |
 		0x20202020
+	if uri[3] != ':' && sch != SchSIPS {
+		// the case folding above also turns 0x1a into ':'
+		sch = 0
+	}
 	var schLen int
 
 	switch sch {
